@@ -230,7 +230,7 @@ func (w *Wrapper) Copy() Resource {
 
 			nw.Set(attr.Name, v)
 		case *[]byte:
-			if v != nil && *v != nil {
+			if v != nil {
 				nv := make([]byte, len(*v))
 				_ = copy(nv, *v)
 				v = &nv
